@@ -26,7 +26,10 @@ for f in sorted(glob.glob(os.path.join(xdir, "*.go"))):
     if f.endswith("_test.go"):
         continue
     rep[f] = ""
-for f in sorted(glob.glob(os.path.join(VERIF, "xcrypto_model", "*.go"))):
+XMODEL = os.environ.get("VERIF_XCRYPTO_DIR", os.path.join(VERIF, "xcrypto_model"))
+for f in sorted(glob.glob(os.path.join(XMODEL, "*.go"))):
+    if f.endswith("_test.go"):
+        continue
     rep[os.path.join(xdir, "zz_verif_" + os.path.basename(f))] = f
 
 # 2. rctops.go without import "C"
